@@ -229,6 +229,11 @@ func (db *DB) writeLocked(batch, ourBatch *Batch, merge, sync bool) error {
 
 	// Write journal.
 	if err := db.writeJournal(batches, seq, sync); err != nil {
+		// The record may already be (partially or wholly) in the journal
+		// file, e.g. when only the sync failed, and would then be replayed
+		// on recovery. Consume its sequence numbers so that a later record
+		// never reuses them; gaps in the sequence are harmless.
+		db.addSeq(uint64(batchesLen(batches)))
 		db.unlockWrite(overflow, merged, err)
 		return err
 	}
